@@ -673,6 +673,16 @@ fn cases_for_instance(out: &mut Out, codec: Codec, prefix: &str, valid: bool, rn
         let n = rng.range(1, 24) as usize;
         names.push((0..n).map(|_| (b'a' + rng.below(26) as u8) as char).collect());
     }
+    // names that are themselves VALID addresses of this very codec and prefix (a helper that "passes addresses
+    // through" instead of hashing them would make different names collide), and of another prefix
+    for base in ["owner", "alice"] {
+        if let R::Ok(a) = Inst::new(codec, prefix).make(base) {
+            names.push(a);
+        }
+        if let R::Ok(a) = Inst::new(codec, &another_prefix(prefix)).make(base) {
+            names.push(a);
+        }
+    }
     for n in &names {
         probes.push(ProbeIn::Make(n.clone()));
     }
